@@ -198,3 +198,18 @@ Lemma link_watchStream : C15_Gen.calls_watchStream =
    "logx.Errorf"; "return"; "c.handleWatchEvents"; "case:"; "recv:c.done"; "return"].
 Proof. reflexivity. Qed.
 Local Close Scope string_scope.
+
+(* ---------------------------------------------------------------- round 6 *)
+Local Open Scope string_scope.
+(* publisher-first start-up: GetConn goes through the SAME registry entry as Monitor (getCluster), and the cluster
+   that creates the client is the one whose watchConnState is started *)
+Lemma link_GetConn : C15_Gen.calls_GetConn = ["r.getCluster"; "c.getClient"; "return"].
+Proof. reflexivity. Qed.
+Lemma link_getClient : C15_Gen.calls_getClient = ["c.newClient"; "return"; "connManager.Get"; "return"; "return"].
+Proof. reflexivity. Qed.
+Lemma link_newClient : C15_Gen.calls_newClient = ["NewClient"; "return"; "go:c.watchConnState"; "return"].
+Proof. reflexivity. Qed.
+(* Model.step Rewatch: watch keeps calling watchStream (with the revision of its load) until it is told to stop *)
+Lemma link_watch : C15_Gen.calls_watch = ["c.watchStream"; "return"].
+Proof. reflexivity. Qed.
+Local Close Scope string_scope.
